@@ -15,6 +15,27 @@ RULES = {'C01': {'INIT', 'ARG', 'RET', 'COND', 'ASSIGN', 'ELEM', 'DEFAULT', 'TAR
          'C05': {'RESOLVE', 'ARITY', 'MUTABLE', 'CONCRETE', 'TYVAR', 'UNIQUE', 'RESERVED'}}
 
 
+def cause_of(f, T):
+    """Structural class of an assignability finding: are both types instantiations of ONE generic
+    class that has dependent parameters (a parameter whose bound mentions another parameter)?  The
+    generator narrows an expected type with find_subtypes, whose dependent-parameter bookkeeping
+    can return a non-subtype (C09-K4)."""
+    have, want = f['extra'].get('have'), f['extra'].get('want')
+    if not have or not want:
+        return None
+
+    def dep_class(x, y):
+        if x[0] == 'c' and y[0] == 'c' and x[1] == y[1] and x[1] in T.classes:
+            params = T.classes[x[1]][0]
+            names = {p[0] for p in params}
+            if any(p[2] is not None and (terms.free_vars(p[2]) & names) for p in params):
+                return True
+            return any(dep_class(a if a[0] != 'w' else (a[2] or a), b if b[0] != 'w' else (b[2] or b))
+                       for a, b in zip(x[2], y[2]))
+        return False
+    return 'same-class-with-dependent-parameters' if dep_class(have, want) else 'other'
+
+
 def reserved_words(lang):
     from vf import boot
     p = os.path.join(boot.REPO, 'src', 'resources', '%s_keywords' % lang)
@@ -54,6 +75,8 @@ class Monitor:
         for k, v in ck.unjudged.items():
             if k.split(':')[0] in self.rules:
                 out.unjudged[k] = out.unjudged.get(k, 0) + v
+        for f in mine:
+            f['cause'] = cause_of(f, ck.T)
         self.found = mine
         self.nontrivial = sum(v for k, v in ck.stats.items() if k in self.rules) > 50
         if self.lang != 'java':
@@ -83,6 +106,8 @@ class Monitor:
                     out.info['checker_disagreements'].append({'case': case, 'rule': f['rule'], 'msg': f['msg'][:200]})
                 continue
             mech = {'rule': f['rule'], 'lang': self.lang}
+            if f.get('cause'):
+                mech['cause'] = f['cause']
             for k in ('kind', 'capture'):
                 if k in f['extra']:
                     mech[k] = f['extra'][k]
